@@ -169,24 +169,48 @@ def run(model, rep):
                           key='C16.DEC|%s|%s' % (fi.name, src(c)))
     rep.floor('C16.DEC', 1, n_dec)
 
-    # ---- REPR
-    tp = 'python_minifier.token_printer.TokenPrinter'
-    for meth in ('stringliteral', 'bytesliteral'):
-        fi = model.func(tp + '.' + meth)
-        d = local_defs(fi.node)
-        val = fi.positional[0]
-        appended = [n for n in walk_own(fi.node) if isinstance(n, ast.AugAssign) and src(n.target) == 'self._code']
-        ok = bool(appended)
-        for ap in appended:
-            v = ap.value
-            if not isinstance(v, ast.Name):
-                ok = False
+    # ---- REPR: the token printer's string / bytes literal emitters abstractly run on crafted values. The emitted text must denote the identical
+    # constant, must be encodable as UTF-8 (no lone surrogate) and must not contain a raw CR, LF or NUL (universal newlines would rewrite a CR inside
+    # a literal; the tokenizer refuses NUL).
+    from ..absprint import TP, token_printer
+    strs = ['', 'a', "it's", '"', "'\"", 'e\u0301\xe9', '\u20ac', '\ud800', 'x\udcffy', '\r', '\n', 'a\r\nb', '\x00', '\x1b[0m', '\x7f', '\x85', '\u2028', '\\', '\\n', '\U0001f600', 'a\tb', '{}', '# -*- coding: x -*-']
+    byts = [b'', b'a', b"'", b'"', b'\xe9', b'a\r\nb', b'\x00', b'\\', b'\xff\xfe', b'\n']
+    for meth, values in (('stringliteral', strs), ('bytesliteral', byts)):
+        fi = model.func(TP + '.' + meth)
+        bad = []
+        for v in values:
+            I, mk = token_printer(model)
+            box = []
+
+            def thunk():
+                tp = mk()
+                box.append(tp)
+                return I.call_method(TP, meth, tp, [v])
+            res = I.explore(thunk)
+            if len(res) != 1 or res[0][0][0] not in ('return', 'raise'):
+                raise AnalysisError('UNDECIDED: TokenPrinter.%s(%r) -> %s' % (meth, v, [(r[0], r[2][:2]) for r in res][:2]))
+            if res[0][0][0] == 'raise':
+                bad.append('%r: raises %s' % (v, res[0][0][1]))
                 continue
-            roots = [x for x in d.get(v.id, []) if isinstance(x, ast.AST)]
-            # first definition must be repr(value); later ones may only be prefix surgery guarded by the py2 unicode_literals switch
-            if not roots or not (isinstance(roots[0], ast.Call) and src(roots[0].func) == 'repr' and len(roots[0].args) == 1 and src(roots[0].args[0]) == val):
-                ok = False
-        rep.check(ok, 'C16.REPR', fi.loc(), meth, 'emitted text originates from repr(%s)' % val, 'literal text does not originate from repr(%s)' % val, key='C16.REPR|' + meth)
+            code = box[-1].attrs.get('_code')
+            if not isinstance(code, str):
+                raise AnalysisError('UNDECIDED: TokenPrinter.%s(%r) leaves code %r' % (meth, v, code))
+            try:
+                back = ast.literal_eval(code)
+            except (SyntaxError, ValueError) as e:
+                bad.append('%r printed as %r, which is not a literal (%s)' % (v, code, e))
+                continue
+            if back != v or type(back) is not type(v):
+                bad.append('%r printed as %r, which denotes %r' % (v, code, back))
+            elif any(c in code for c in '\r\n\x00'):
+                bad.append('%r printed as %r with a raw CR / LF / NUL inside the literal' % (v, code))
+            else:
+                try:
+                    code.encode('utf-8')
+                except UnicodeEncodeError:
+                    bad.append('%r printed as %r, which cannot be encoded as UTF-8 (lone surrogate written raw)' % (v, code))
+        rep.check(not bad, 'C16.REPR', fi.loc(), '%s on %d crafted values' % (meth, len(values)), 'emitted text denotes the identical constant, is UTF-8 encodable and has no raw CR / LF / NUL',
+                  '; '.join(bad[:3]), key='C16.REPR|' + meth, cells=len(values))
     rep.floor('C16.REPR', 2)
 
 
